@@ -3,7 +3,8 @@
    Heap, graphs, notifier keys and the flat hook list are those of Common/ObsCore.v.
    Fields (the harness uses the same numbers): 0 value (Int), 1 f, 2 g (Instance),
    3 kids (List), 4 m (Dict), 5 s (Set); pseudo-fields holding the items of a container
-   object: 6 (TraitList), 7 (TraitDict: the values), 8 (TraitSet).  Container objects are
+   object: 6 (TraitList), 7 (TraitDict: the values), 8 (TraitSet); 10 trait_added, 11 trait_modified
+   (event traits every HasTraits object has); 12.. Instance traits added with add_trait.  Container objects are
    allocated with fresh oids ([st_next]) when a container is assigned or a default
    materialises, so "the same list mutated" and "a new list assigned" differ.
 
